@@ -12,8 +12,11 @@ import (
 )
 
 func init() {
-	props["C12"] = c12
-	floors["C12"] = map[string]int{"C12.R1": 35, "C12.R2": 38, "C12.R3": 58, "C12.R4": 28, "C12.R5": 4, "C12.R6": 8, "C12.R7": 5, "C12.R8": 6}
+	props["C12"] = func(r *Report) {
+		c12(r)
+		r.Guard("C12.R9", "every lock taken is released on every exit: the group / handler locks", func() { lockPairRule(r, "fifo", "priority", "filter", "martianhttp", "parse", "servemux") })
+	}
+	floors["C12"] = map[string]int{"C12.R1": 35, "C12.R2": 38, "C12.R3": 58, "C12.R4": 28, "C12.R5": 4, "C12.R6": 8, "C12.R7": 5, "C12.R8": 6, "C12.R9": 1}
 }
 
 // registered lists the (name, parse function) pairs passed to parse.Register.
@@ -252,6 +255,9 @@ func c12(r *Report) {
 					continue
 				case "fmt.Errorf", "errors.New": // error constructors, not fallible steps
 					continue
+				}
+				if infallibleWriters[calleeName(c)] {
+					continue // documented to always return a nil error
 				}
 				r.Sites++
 				key := fmt.Sprintf("%s: error of %s#%d propagated", fnName(f), nameOrDyn(c), ordinalAny(f, c))
